@@ -222,7 +222,10 @@ class Evaluator:
         if self.depth > 4:
             raise Undecidable('call depth')
         if fn.split('::')[-1] == 'isanyof' and len(e.get('a', [])) == 2:
-            s_ = strip(e['a'][1])
+            import q as _q
+            s_ = strip(_q.expand(self.f, e['a'][1]))
+            while s_.get('k') == 'cast':
+                s_ = strip(s_['e'])
             if s_.get('k') == 'cond':
                 s_ = strip(s_['x']) if self.ev(s_['c']) else strip(s_['y'])
             if s_.get('k') == 'str':
